@@ -34,7 +34,7 @@ class Built:
     """A program realised with real tensors."""
 
     def __init__(self, prog: list[dict], dtype=torch.float64, rng: random.Random | None = None,
-                 shapes: list | None = None, scalars: tuple | list = ()):
+                 shapes: list | None = None, scalars: tuple | list = (), real: list | None = None):
         """``scalars``: node ids (1-based) that must be 0-d tensors (losses of mtl_backward)."""
         rng = rng or random.Random(0)
         scalars = set(scalars)
@@ -42,9 +42,14 @@ class Built:
         self.dtype = dtype
         self.t: list[torch.Tensor] = []          # 0-based: self.t[i-1] is node i
         self.shapes: list[tuple] = []
+        # how each op node is realised with torch (same abstract semantics, different autograd nodes);
+        # a twin graph is built with the same list
+        self.real: list[int] = list(real) if real else []
         for idx, nd in enumerate(prog):
             op = nd["op"]
             if op == "leaf":
+                if idx >= len(self.real):
+                    self.real.append(0)
                 shape = tuple(shapes[idx]) if shapes else pick_shape(nd["size"], rng)
                 x = torch.tensor([float(v) for v in nd["val"]], dtype=dtype).reshape(shape)
                 x.requires_grad_(bool(nd["rg"]))
@@ -52,46 +57,53 @@ class Built:
                 self.shapes.append(shape)
                 continue
             a = self.t[nd["a"] - 1]
-            if op == "lin":
-                M = torch.tensor(nd["mat"], dtype=dtype)
-                y = M @ a.reshape(-1)
-            elif op == "scale":
-                y = nd["c"] * a.reshape(-1)
-            elif op == "detach":
-                y = a.detach().reshape(-1)
-            else:
-                b = self.t[nd["b"] - 1]
-                if op == "add":
-                    y = a.reshape(-1) + b.reshape(-1)
-                elif op == "mul":
-                    y = a.reshape(-1) * b.reshape(-1)
-                elif op == "cat":
-                    y = torch.cat([a.reshape(-1), b.reshape(-1)])
-                else:
-                    raise ValueError(f"unknown op {op}")
+            how = self.real[idx] if idx < len(self.real) else rng.randrange(3)
+            if idx >= len(self.real):
+                self.real.append(how)
+            y = self._apply(nd, a, None if "b" not in nd else self.t[nd["b"] - 1], how)
             shape = tuple(shapes[idx]) if shapes else (() if (idx + 1) in scalars else pick_shape(y.numel(), rng))
             self.t.append(y.reshape(shape))
             self.shapes.append(shape)
+
+    def _apply(self, nd: dict, a, b, how: int):
+        """One abstract op on flattened operands, realised in one of several equivalent torch forms."""
+        op = nd["op"]
+        af = a.reshape(-1)
+        if op == "lin":
+            mat = nd["mat"]
+            n = af.numel()
+            if how == 1 and len(mat) == 1 and all(v == 1 for v in mat[0]):
+                return af.sum().reshape(1)                                  # ones row = sum
+            if how >= 1 and all(sorted(r) == [0] * (n - 1) + [1] for r in mat):
+                idx = torch.tensor([r.index(1) for r in mat])
+                return af[idx] if how == 1 else torch.index_select(af, 0, idx)   # selection / permutation
+            M = torch.tensor(mat, dtype=self.dtype)
+            return M @ af if how != 2 else torch.mv(M, af)
+        if op == "scale":
+            c = nd["c"]
+            return [lambda: c * af, lambda: af * c, lambda: af.mul(c)][how]()
+        if op == "detach":
+            return af.detach()
+        bf = b.reshape(-1)
+        if op == "add":
+            return [lambda: af + bf, lambda: torch.add(af, bf), lambda: bf + af][how]()
+        if op == "mul":
+            return [lambda: af * bf, lambda: torch.mul(af, bf), lambda: bf * af][how]()
+        if op == "cat":
+            if how == 1 and af.numel() == bf.numel():
+                return torch.stack([af, bf]).reshape(-1)
+            return torch.cat([af, bf])
+        raise ValueError(f"unknown op {op}")
 
     def forward_again(self) -> None:
         """Recompute every non-leaf node from the CURRENT values of the same leaf tensors (a new
         autograd graph, as at each iteration of a training loop); shapes are kept."""
         for idx, nd in enumerate(self.prog):
-            op = nd["op"]
-            if op == "leaf":
+            if nd["op"] == "leaf":
                 continue
             a = self.t[nd["a"] - 1]
-            if op == "lin":
-                y = torch.tensor(nd["mat"], dtype=self.dtype) @ a.reshape(-1)
-            elif op == "scale":
-                y = nd["c"] * a.reshape(-1)
-            elif op == "detach":
-                y = a.detach().reshape(-1)
-            else:
-                b = self.t[nd["b"] - 1]
-                y = {"add": lambda: a.reshape(-1) + b.reshape(-1), "mul": lambda: a.reshape(-1) * b.reshape(-1),
-                     "cat": lambda: torch.cat([a.reshape(-1), b.reshape(-1)])}[op]()
-            self.t[idx] = y.reshape(self.shapes[idx])
+            b = None if "b" not in nd else self.t[nd["b"] - 1]
+            self.t[idx] = self._apply(nd, a, b, self.real[idx]).reshape(self.shapes[idx])
 
     def node(self, i: int) -> torch.Tensor:      # 1-based, as in the specification
         return self.t[i - 1]
